@@ -120,18 +120,43 @@ pub fn quiet_panics() {
 
 pub enum Outcome { Ok(Box<QRCode>), Err(&'static str), Panic(String), Timeout }
 
-/// Runs `f` on its own thread under catch_unwind with a watchdog: a panic or a hang is data, not a crash.
+type Job = Box<dyn FnOnce() + Send + 'static>;
+static EXECUTOR: std::sync::Mutex<Option<mpsc::Sender<Job>>> = std::sync::Mutex::new(None);
+
+/// Runs `f` under catch_unwind with a watchdog: a panic or a hang is data, not a crash.
+/// All calls of a driver run on ONE long-lived executor thread (replaced only after a timeout), so whatever a call leaves
+/// behind on its thread (thread-locals, per-thread scratch) is still there for the next call: state leaking from one
+/// build or rendering into the next becomes visible in every scenario, not only in the multi-threaded ones.
 pub fn guarded<T: Send + 'static>(secs: u64, f: impl FnOnce() -> T + Send + 'static) -> Result<T, String> {
     let (tx, rx) = mpsc::channel();
-    let h = std::thread::Builder::new().stack_size(16 << 20).spawn(move || {
+    let job: Job = Box::new(move || {
         let r = std::panic::catch_unwind(std::panic::AssertUnwindSafe(f));
         let _ = tx.send(r.map_err(panic_msg));
     });
-    if h.is_err() { return Err("spawn failed".into()); }
+    {
+        let mut ex = EXECUTOR.lock().unwrap_or_else(|e| e.into_inner());
+        let mut job = Some(job);
+        for _ in 0..2 {
+            if ex.is_none() {
+                let (jtx, jrx) = mpsc::channel::<Job>();
+                let h = std::thread::Builder::new().stack_size(16 << 20).spawn(move || { for j in jrx { j(); } });
+                if h.is_err() { return Err("spawn failed".into()); }
+                *ex = Some(jtx);
+            }
+            match ex.as_ref().unwrap().send(job.take().unwrap()) {
+                Ok(()) => break,
+                Err(e) => { job = Some(e.0); *ex = None; }
+            }
+        }
+    }
     match rx.recv_timeout(Duration::from_secs(secs)) {
         Ok(Ok(v)) => Ok(v),
         Ok(Err(m)) => Err(format!("Panic:{m}")),
-        Err(_) => Err("Timeout".into()),
+        Err(_) => {
+            // the executor is stuck in the call: abandon it, the next call gets a fresh one
+            *EXECUTOR.lock().unwrap_or_else(|e| e.into_inner()) = None;
+            Err("Timeout".into())
+        }
     }
 }
 
